@@ -1,4 +1,526 @@
-import PrimitivModel.Model.KernelsArith
+import PrimitivModel.Analysis.Scalar
+import PrimitivModel.Lemmas.ArithIndex
+import PrimitivModel.Props.C08.Arith
+/-
+C01 (backward() yields the true derivative), arithmetic kernels.
+
+* `Elementwise.<f>_bw_is_derivative` (T3 applied to the generated text): the
+  backward formula generated from devices/naive/ops AND the one generated from
+  devices/eigen/ops, interpreted over ℝ and fed with `y = fw x`, equal
+  `gy · f′(x)` where `f′` is the derivative (`HasDerivAt`) of the generated
+  forward formula, on the smooth domain of the function.
+* `pown_fw_spec` (T4): the square-and-multiply loop is `x ^ k` for every integer k
+  (`INT32_MIN` included); `pown_bw_is_derivative` for x ≠ 0; the full statement
+  (every x for k ≥ 0) is false on the pinned tree: `pown_bw_zero_witness`.
+* `Binary.<op>_adjoint`, `Matmul.adjoint`, `Conv2d.adjoint`, `MaxPool.adjoint` (T2):
+  local adjoint laws `Σ⟪bw − g₀, dx⟫ = Σ⟪gy, jvp dx⟫` over a commutative ring /
+  field, for every batch pattern (a zero stride sums the gradient over the batch).
+-/
 namespace Primitiv.C01.Arith
-theorem placeholder : True := trivial
+open Primitiv Primitiv.Arith Primitiv.Gen.Elementwise Primitiv.Analysis Finset
+
+/-- `bw` is a backward formula of `fw` at `x`: with `y = fw x` it returns `gy · f′(x)` for every upstream `gy` -/
+def IsBackwardOf (fw : ℝ → ℝ) (bw : ℝ → ℝ → ℝ → ℝ) (x : ℝ) : Prop :=
+  ∃ d, HasDerivAt fw d x ∧ ∀ gy, bw x (fw x) gy = gy * d
+
+theorem IsBackwardOf.congr {fw fw' : ℝ → ℝ} {bw bw' : ℝ → ℝ → ℝ → ℝ} {x : ℝ}
+    (h : IsBackwardOf fw bw x) (hf : fw = fw') (hb : ∀ x y gy, bw x y gy = bw' x y gy) : IsBackwardOf fw' bw' x := by
+  obtain ⟨d, hd, hg⟩ := h
+  subst hf
+  exact ⟨d, hd, fun gy => by rw [← hb]; exact hg gy⟩
+
+namespace Elementwise
+
+/-- both backends at once: the Eigen pair is the Naive pair (Props/C08/Arith.lean) -/
+local macro "both" n:ident _fwn:ident fwe:ident bwe:ident : tactic =>
+  `(tactic| exact ⟨$n, IsBackwardOf.congr $n (funext fun x => $fwe x) (fun x y gy => $bwe x y gy)⟩)
+
+/-! #### unary -/
+
+theorem tanh_fw_eq : naive_tanh_fw realFns = Real.tanh := by funext x; simp [naive_tanh_fw]
+theorem exp_fw_eq : naive_exp_fw realFns = Real.exp := by funext x; simp [naive_exp_fw]
+theorem log_fw_eq : naive_log_fw realFns = Real.log := by funext x; simp [naive_log_fw]
+theorem sqrt_fw_eq : naive_sqrt_fw realFns = Real.sqrt := by funext x; simp [naive_sqrt_fw]
+theorem sin_fw_eq : naive_sin_fw realFns = Real.sin := by funext x; simp [naive_sin_fw]
+theorem cos_fw_eq : naive_cos_fw realFns = Real.cos := by funext x; simp [naive_cos_fw]
+theorem tan_fw_eq : naive_tan_fw realFns = Real.tan := by funext x; simp [naive_tan_fw]
+theorem abs_fw_eq : naive_abs_fw realFns = fun x => |x| := by funext x; simp [naive_abs_fw]
+theorem sigmoid_fw_eq : naive_sigmoid_fw realFns = sigmoidT := by
+  funext x; simp [naive_sigmoid_fw, sigmoidT]
+theorem softplus_fw_eq : naive_softplus_fw realFns = softplus := by
+  funext x
+  simp only [naive_softplus_fw, lit_zero, lit_one, fns_exp, fns_log]
+  split_ifs
+  · exact softplus_pos_branch x
+  · rfl
+
+theorem tanh_bw_is_derivative (x : ℝ) :
+    IsBackwardOf (naive_tanh_fw realFns) (naive_tanh_bw realFns) x ∧
+    IsBackwardOf (eigen_tanh_fw realFns) (eigen_tanh_bw realFns) x := by
+  have n : IsBackwardOf (naive_tanh_fw realFns) (naive_tanh_bw realFns) x := by
+    rw [tanh_fw_eq]
+    exact ⟨_, hasDerivAt_tanh x, fun gy => by simp [naive_tanh_bw]; ring⟩
+  both n C08.Arith.Elementwise.naive_eq_eigen_tanh_fw C08.Arith.Elementwise.naive_eq_eigen_tanh_fw
+    C08.Arith.Elementwise.naive_eq_eigen_tanh_bw
+
+theorem sigmoid_bw_is_derivative (x : ℝ) :
+    IsBackwardOf (naive_sigmoid_fw realFns) (naive_sigmoid_bw realFns) x ∧
+    IsBackwardOf (eigen_sigmoid_fw realFns) (eigen_sigmoid_bw realFns) x := by
+  have n : IsBackwardOf (naive_sigmoid_fw realFns) (naive_sigmoid_bw realFns) x := by
+    rw [sigmoid_fw_eq]
+    exact ⟨_, hasDerivAt_sigmoidT x, fun gy => by simp [naive_sigmoid_bw]; ring⟩
+  both n C08.Arith.Elementwise.naive_eq_eigen_sigmoid_fw C08.Arith.Elementwise.naive_eq_eigen_sigmoid_fw
+    C08.Arith.Elementwise.naive_eq_eigen_sigmoid_bw
+
+theorem softplus_bw_is_derivative (x : ℝ) :
+    IsBackwardOf (naive_softplus_fw realFns) (naive_softplus_bw realFns) x ∧
+    IsBackwardOf (eigen_softplus_fw realFns) (eigen_softplus_bw realFns) x := by
+  have n : IsBackwardOf (naive_softplus_fw realFns) (naive_softplus_bw realFns) x := by
+    rw [softplus_fw_eq]
+    exact ⟨_, hasDerivAt_softplus x, fun gy => by simp [naive_softplus_bw, sigmoidT]; ring⟩
+  both n C08.Arith.Elementwise.naive_eq_eigen_softplus_fw C08.Arith.Elementwise.naive_eq_eigen_softplus_fw
+    C08.Arith.Elementwise.naive_eq_eigen_softplus_bw
+
+theorem exp_bw_is_derivative (x : ℝ) :
+    IsBackwardOf (naive_exp_fw realFns) (naive_exp_bw realFns) x ∧
+    IsBackwardOf (eigen_exp_fw realFns) (eigen_exp_bw realFns) x := by
+  have n : IsBackwardOf (naive_exp_fw realFns) (naive_exp_bw realFns) x := by
+    rw [exp_fw_eq]
+    exact ⟨_, hasDerivAt_exp' x, fun gy => by simp [naive_exp_bw]; ring⟩
+  both n C08.Arith.Elementwise.naive_eq_eigen_exp_fw C08.Arith.Elementwise.naive_eq_eigen_exp_fw
+    C08.Arith.Elementwise.naive_eq_eigen_exp_bw
+
+theorem log_bw_is_derivative {x : ℝ} (hx : x ≠ 0) :
+    IsBackwardOf (naive_log_fw realFns) (naive_log_bw realFns) x ∧
+    IsBackwardOf (eigen_log_fw realFns) (eigen_log_bw realFns) x := by
+  have n : IsBackwardOf (naive_log_fw realFns) (naive_log_bw realFns) x := by
+    rw [log_fw_eq]
+    exact ⟨_, hasDerivAt_log' hx, fun gy => by simp [naive_log_bw]; ring⟩
+  both n C08.Arith.Elementwise.naive_eq_eigen_log_fw C08.Arith.Elementwise.naive_eq_eigen_log_fw
+    C08.Arith.Elementwise.naive_eq_eigen_log_bw
+example : (2 : ℝ) ≠ 0 := by norm_num
+
+theorem sqrt_bw_is_derivative {x : ℝ} (hx : 0 < x) :
+    IsBackwardOf (naive_sqrt_fw realFns) (naive_sqrt_bw realFns) x ∧
+    IsBackwardOf (eigen_sqrt_fw realFns) (eigen_sqrt_bw realFns) x := by
+  have n : IsBackwardOf (naive_sqrt_fw realFns) (naive_sqrt_bw realFns) x := by
+    rw [sqrt_fw_eq]
+    exact ⟨_, hasDerivAt_sqrt' hx, fun gy => by simp [naive_sqrt_bw]; ring⟩
+  both n C08.Arith.Elementwise.naive_eq_eigen_sqrt_fw C08.Arith.Elementwise.naive_eq_eigen_sqrt_fw
+    C08.Arith.Elementwise.naive_eq_eigen_sqrt_bw
+example : (0 : ℝ) < 2 := by norm_num
+
+theorem sin_bw_is_derivative (x : ℝ) :
+    IsBackwardOf (naive_sin_fw realFns) (naive_sin_bw realFns) x ∧
+    IsBackwardOf (eigen_sin_fw realFns) (eigen_sin_bw realFns) x := by
+  have n : IsBackwardOf (naive_sin_fw realFns) (naive_sin_bw realFns) x := by
+    rw [sin_fw_eq]
+    exact ⟨_, hasDerivAt_sin' x, fun gy => by simp [naive_sin_bw]; ring⟩
+  both n C08.Arith.Elementwise.naive_eq_eigen_sin_fw C08.Arith.Elementwise.naive_eq_eigen_sin_fw
+    C08.Arith.Elementwise.naive_eq_eigen_sin_bw
+
+theorem cos_bw_is_derivative (x : ℝ) :
+    IsBackwardOf (naive_cos_fw realFns) (naive_cos_bw realFns) x ∧
+    IsBackwardOf (eigen_cos_fw realFns) (eigen_cos_bw realFns) x := by
+  have n : IsBackwardOf (naive_cos_fw realFns) (naive_cos_bw realFns) x := by
+    rw [cos_fw_eq]
+    exact ⟨_, hasDerivAt_cos' x, fun gy => by simp [naive_cos_bw]; ring⟩
+  both n C08.Arith.Elementwise.naive_eq_eigen_cos_fw C08.Arith.Elementwise.naive_eq_eigen_cos_fw
+    C08.Arith.Elementwise.naive_eq_eigen_cos_bw
+
+theorem tan_bw_is_derivative {x : ℝ} (hx : Real.cos x ≠ 0) :
+    IsBackwardOf (naive_tan_fw realFns) (naive_tan_bw realFns) x ∧
+    IsBackwardOf (eigen_tan_fw realFns) (eigen_tan_bw realFns) x := by
+  have n : IsBackwardOf (naive_tan_fw realFns) (naive_tan_bw realFns) x := by
+    rw [tan_fw_eq]
+    exact ⟨_, hasDerivAt_tan' hx, fun gy => by simp [naive_tan_bw]; ring⟩
+  both n C08.Arith.Elementwise.naive_eq_eigen_tan_fw C08.Arith.Elementwise.naive_eq_eigen_tan_fw
+    C08.Arith.Elementwise.naive_eq_eigen_tan_bw
+example : Real.cos 0 ≠ 0 := by simp
+
+theorem abs_bw_is_derivative {x : ℝ} (hx : x ≠ 0) :
+    IsBackwardOf (naive_abs_fw realFns) (naive_abs_bw realFns) x ∧
+    IsBackwardOf (eigen_abs_fw realFns) (eigen_abs_bw realFns) x := by
+  have e : IsBackwardOf (eigen_abs_fw realFns) (eigen_abs_bw realFns) x := by
+    have : eigen_abs_fw realFns = fun x => |x| := by funext x; simp [eigen_abs_fw]
+    rw [this]
+    exact ⟨_, hasDerivAt_abs' hx, fun gy => by simp [eigen_abs_bw]; ring⟩
+  exact ⟨IsBackwardOf.congr e (funext fun x => (C08.Arith.Elementwise.naive_eq_eigen_abs_fw x).symm)
+    (fun x y gy => (C08.Arith.Elementwise.naive_eq_eigen_abs_bw x y gy).symm), e⟩
+example : (-3 : ℝ) ≠ 0 := by norm_num
+
+/-! #### `*_const_*`, prelu, elu: `fw := fun x => f x k`, `bw := fun x y gy => b x y gy k` -/
+
+/-- the const kernels as unary functions -/
+abbrev cf (f : ℝ → ℝ → ℝ) (k : ℝ) : ℝ → ℝ := fun x => f x k
+abbrev cb (b : ℝ → ℝ → ℝ → ℝ → ℝ) (k : ℝ) : ℝ → ℝ → ℝ → ℝ := fun x y gy => b x y gy k
+
+local macro "bothc" n:ident fwe:ident bwe:ident k:ident : tactic =>
+  `(tactic| exact ⟨$n, IsBackwardOf.congr $n (funext fun x => $fwe x $k) (fun x y gy => $bwe x y gy $k)⟩)
+
+theorem add_const_bw_is_derivative (k x : ℝ) :
+    IsBackwardOf (cf (naive_add_const_fw realFns) k) (cb (naive_add_const_bw realFns) k) x ∧
+    IsBackwardOf (cf (eigen_add_const_fw realFns) k) (cb (eigen_add_const_bw realFns) k) x := by
+  have n : IsBackwardOf (cf (naive_add_const_fw realFns) k) (cb (naive_add_const_bw realFns) k) x :=
+    ⟨1, by rw [show cf (naive_add_const_fw realFns) k = fun x => x + k from rfl]; exact (hasDerivAt_id x).add_const k,
+      fun gy => by simp [cb, naive_add_const_bw]⟩
+  bothc n C08.Arith.Elementwise.naive_eq_eigen_add_const_fw C08.Arith.Elementwise.naive_eq_eigen_add_const_bw k
+
+theorem subtract_const_r_bw_is_derivative (k x : ℝ) :
+    IsBackwardOf (cf (naive_subtract_const_r_fw realFns) k) (cb (naive_subtract_const_r_bw realFns) k) x ∧
+    IsBackwardOf (cf (eigen_subtract_const_r_fw realFns) k) (cb (eigen_subtract_const_r_bw realFns) k) x := by
+  have n : IsBackwardOf (cf (naive_subtract_const_r_fw realFns) k) (cb (naive_subtract_const_r_bw realFns) k) x :=
+    ⟨1, by rw [show cf (naive_subtract_const_r_fw realFns) k = fun x => x - k from rfl]; exact (hasDerivAt_id x).sub_const k,
+      fun gy => by simp [cb, naive_subtract_const_r_bw]⟩
+  bothc n C08.Arith.Elementwise.naive_eq_eigen_subtract_const_r_fw C08.Arith.Elementwise.naive_eq_eigen_subtract_const_r_bw k
+
+theorem subtract_const_l_bw_is_derivative (k x : ℝ) :
+    IsBackwardOf (cf (naive_subtract_const_l_fw realFns) k) (cb (naive_subtract_const_l_bw realFns) k) x ∧
+    IsBackwardOf (cf (eigen_subtract_const_l_fw realFns) k) (cb (eigen_subtract_const_l_bw realFns) k) x := by
+  have n : IsBackwardOf (cf (naive_subtract_const_l_fw realFns) k) (cb (naive_subtract_const_l_bw realFns) k) x :=
+    ⟨-1, by rw [show cf (naive_subtract_const_l_fw realFns) k = fun x => k - x from rfl]; exact (hasDerivAt_id x).const_sub k,
+      fun gy => by simp [cb, naive_subtract_const_l_bw]⟩
+  bothc n C08.Arith.Elementwise.naive_eq_eigen_subtract_const_l_fw C08.Arith.Elementwise.naive_eq_eigen_subtract_const_l_bw k
+
+theorem multiply_const_bw_is_derivative (k x : ℝ) :
+    IsBackwardOf (cf (naive_multiply_const_fw realFns) k) (cb (naive_multiply_const_bw realFns) k) x ∧
+    IsBackwardOf (cf (eigen_multiply_const_fw realFns) k) (cb (eigen_multiply_const_bw realFns) k) x := by
+  have n : IsBackwardOf (cf (naive_multiply_const_fw realFns) k) (cb (naive_multiply_const_bw realFns) k) x :=
+    ⟨k, by rw [show cf (naive_multiply_const_fw realFns) k = fun x => x * k from rfl]; simpa using (hasDerivAt_id x).mul_const k,
+      fun gy => by simp [cb, naive_multiply_const_bw]; ring⟩
+  bothc n C08.Arith.Elementwise.naive_eq_eigen_multiply_const_fw C08.Arith.Elementwise.naive_eq_eigen_multiply_const_bw k
+
+theorem divide_const_r_bw_is_derivative (k x : ℝ) :
+    IsBackwardOf (cf (naive_divide_const_r_fw realFns) k) (cb (naive_divide_const_r_bw realFns) k) x ∧
+    IsBackwardOf (cf (eigen_divide_const_r_fw realFns) k) (cb (eigen_divide_const_r_bw realFns) k) x := by
+  have n : IsBackwardOf (cf (naive_divide_const_r_fw realFns) k) (cb (naive_divide_const_r_bw realFns) k) x :=
+    ⟨1 / k, by rw [show cf (naive_divide_const_r_fw realFns) k = fun x => x / k from rfl]; exact hasDerivAt_div_const' x k,
+      fun gy => by simp [cb, naive_divide_const_r_bw]; ring⟩
+  bothc n C08.Arith.Elementwise.naive_eq_eigen_divide_const_r_fw C08.Arith.Elementwise.naive_eq_eigen_divide_const_r_bw k
+
+theorem divide_const_l_bw_is_derivative (k : ℝ) {x : ℝ} (hx : x ≠ 0) :
+    IsBackwardOf (cf (naive_divide_const_l_fw realFns) k) (cb (naive_divide_const_l_bw realFns) k) x ∧
+    IsBackwardOf (cf (eigen_divide_const_l_fw realFns) k) (cb (eigen_divide_const_l_bw realFns) k) x := by
+  have n : IsBackwardOf (cf (naive_divide_const_l_fw realFns) k) (cb (naive_divide_const_l_bw realFns) k) x :=
+    ⟨_, by rw [show cf (naive_divide_const_l_fw realFns) k = fun x => k / x from rfl]; exact hasDerivAt_const_div k hx,
+      fun gy => by simp [cf, cb, naive_divide_const_l_bw, naive_divide_const_l_fw]; ring⟩
+  bothc n C08.Arith.Elementwise.naive_eq_eigen_divide_const_l_fw C08.Arith.Elementwise.naive_eq_eigen_divide_const_l_bw k
+
+theorem pow_const_r_bw_is_derivative (k : ℝ) {x : ℝ} (hx : 0 < x) :
+    IsBackwardOf (cf (naive_pow_const_r_fw realFns) k) (cb (naive_pow_const_r_bw realFns) k) x ∧
+    IsBackwardOf (cf (eigen_pow_const_r_fw realFns) k) (cb (eigen_pow_const_r_bw realFns) k) x := by
+  have n : IsBackwardOf (cf (naive_pow_const_r_fw realFns) k) (cb (naive_pow_const_r_bw realFns) k) x :=
+    ⟨_, by rw [show cf (naive_pow_const_r_fw realFns) k = fun x => x ^ k from rfl]; exact hasDerivAt_rpow_const' k hx,
+      fun gy => by simp [cf, cb, naive_pow_const_r_bw, naive_pow_const_r_fw]; ring⟩
+  bothc n C08.Arith.Elementwise.naive_eq_eigen_pow_const_r_fw C08.Arith.Elementwise.naive_eq_eigen_pow_const_r_bw k
+
+theorem pow_const_l_bw_is_derivative {k : ℝ} (hk : 0 < k) (x : ℝ) :
+    IsBackwardOf (cf (naive_pow_const_l_fw realFns) k) (cb (naive_pow_const_l_bw realFns) k) x ∧
+    IsBackwardOf (cf (eigen_pow_const_l_fw realFns) k) (cb (eigen_pow_const_l_bw realFns) k) x := by
+  have n : IsBackwardOf (cf (naive_pow_const_l_fw realFns) k) (cb (naive_pow_const_l_bw realFns) k) x :=
+    ⟨_, by rw [show cf (naive_pow_const_l_fw realFns) k = fun x => k ^ x from rfl]; exact hasDerivAt_const_rpow' hk x,
+      fun gy => by simp [cf, cb, naive_pow_const_l_bw, naive_pow_const_l_fw]; ring⟩
+  bothc n C08.Arith.Elementwise.naive_eq_eigen_pow_const_l_fw C08.Arith.Elementwise.naive_eq_eigen_pow_const_l_bw k
+
+theorem prelu_bw_is_derivative (k : ℝ) {x : ℝ} (hx : x ≠ 0) :
+    IsBackwardOf (cf (naive_prelu_fw realFns) k) (cb (naive_prelu_bw realFns) k) x ∧
+    IsBackwardOf (cf (eigen_prelu_fw realFns) k) (cb (eigen_prelu_bw realFns) k) x := by
+  have e : IsBackwardOf (cf (eigen_prelu_fw realFns) k) (cb (eigen_prelu_bw realFns) k) x := by
+    have hf : cf (eigen_prelu_fw realFns) k = prelu k := by
+      funext y; simp [cf, eigen_prelu_fw, prelu]
+    rw [hf]
+    refine ⟨_, hasDerivAt_prelu k hx, fun gy => ?_⟩
+    simp only [cb, eigen_prelu_bw, lit_zero]
+    split_ifs <;> ring
+  exact ⟨IsBackwardOf.congr e (funext fun x => (C08.Arith.Elementwise.naive_eq_eigen_prelu_fw x k).symm)
+    (fun x y gy => (C08.Arith.Elementwise.naive_eq_eigen_prelu_bw x y gy k).symm), e⟩
+
+theorem elu_bw_is_derivative (k : ℝ) {x : ℝ} (hx : x ≠ 0) :
+    IsBackwardOf (cf (naive_elu_fw realFns) k) (cb (naive_elu_bw realFns) k) x ∧
+    IsBackwardOf (cf (eigen_elu_fw realFns) k) (cb (eigen_elu_bw realFns) k) x := by
+  have e : IsBackwardOf (cf (eigen_elu_fw realFns) k) (cb (eigen_elu_bw realFns) k) x := by
+    have hf : cf (eigen_elu_fw realFns) k = elu k := by
+      funext y; simp [cf, eigen_elu_fw, elu]
+    rw [hf]
+    refine ⟨_, hasDerivAt_elu k hx, fun gy => ?_⟩
+    simp only [cb, eigen_elu_bw, lit_zero]
+    split_ifs <;> ring
+  exact ⟨IsBackwardOf.congr e (funext fun x => (C08.Arith.Elementwise.naive_eq_eigen_elu_fw x k).symm)
+    (fun x y gy => (C08.Arith.Elementwise.naive_eq_eigen_elu_bw x y gy k).symm), e⟩
+
+end Elementwise
+
+/-! ### pown -/
+
+theorem pownLoop_eq {α : Type} [CommSemiring α] (n : Nat) : ∀ ret factor : α, pownLoop ret factor n = ret * factor ^ n := by
+  induction n using Nat.strong_induction_on with
+  | _ n ih =>
+    intro ret factor
+    rw [pownLoop]
+    split
+    · next h => subst h; simp
+    · next h =>
+      have hlt : n / 2 < n := by omega
+      rw [ih (n / 2) hlt]
+      have hn : n = 2 * (n / 2) + n % 2 := by omega
+      split
+      · next h1 =>
+        conv_rhs => rw [hn, h1]
+        ring
+      · next h1 =>
+        have h0 : n % 2 = 0 := by omega
+        conv_rhs => rw [hn, h0]
+        ring
+
+/-- `abs_k` as the code computes it (with the `INT32_MIN` special case) is `|k|` -/
+theorem pownAbs_eq (k : Int) : pownAbs k = k.natAbs := by
+  unfold pownAbs
+  split
+  · next h => subst h; rfl
+  · rfl
+
+/-- T4: the loop of pown_fw is the integer power, for every k (all of Int32, INT32_MIN included) -/
+theorem pown_fw_spec {α : Type} [Field α] (k : Int) (x : α) : pownElem (1 : α) k x = x ^ k := by
+  unfold pownElem
+  simp only [pownLoop_eq, pownAbs_eq, one_mul]
+  split
+  · next h =>
+    conv_rhs => rw [← Int.natAbs_of_nonneg h]
+    rw [zpow_natCast]
+  · next h =>
+    have hk : k = -(k.natAbs : Int) := by omega
+    conv_rhs => rw [hk]
+    rw [zpow_neg, zpow_natCast, one_div]
+example : pownElem (1 : ℚ) (-2147483648) 1 = 1 := by rw [pown_fw_spec]; simp
+
+/-- T3 for pown, on the domain where the rule `k·gy·y/x` is the derivative -/
+theorem pown_bw_is_derivative (k : Int) {x : ℝ} (hx : x ≠ 0) :
+    IsBackwardOf (fun x => pownElem (1 : ℝ) k x) (fun x y gy => pownBwElem (fun n : Int => (n : ℝ)) k x y gy) x := by
+  have hf : (fun x : ℝ => pownElem (1 : ℝ) k x) = fun x => x ^ k := by funext y; exact pown_fw_spec k y
+  rw [hf]
+  exact ⟨_, hasDerivAt_zpow' k hx, fun gy => by simp [pownBwElem]; ring⟩
+example : (2 : ℝ) ≠ 0 := by norm_num
+
+/-- The full statement of T3 for pown: for k ≥ 0 the integer power is smooth at EVERY x, so the rule
+should be the derivative there too.  Not provable: false at x = 0 (`pown_bw_zero_witness`); known finding
+`pown-bw-zero` (DESIGN section 4, #17). -/
+def pown_bw_is_derivative_full : Prop :=
+  ∀ (k : Int), 0 ≤ k → ∀ x : ℝ,
+    IsBackwardOf (fun x => pownElem (1 : ℝ) k x) (fun x y gy => pownBwElem (fun n : Int => (n : ℝ)) k x y gy) x
+
+/-- k = 1, x = 0: the derivative of `x ↦ x` is 1, the rule gives `1·gy·0/0` (0 over ℝ with `a/0 = 0`, NaN in float32) -/
+theorem pown_bw_zero_witness : ¬ pown_bw_is_derivative_full := by
+  intro h
+  obtain ⟨d, hd, hg⟩ := h 1 (by norm_num) 0
+  have hf : (fun x : ℝ => pownElem (1 : ℝ) 1 x) = fun x => x := by
+    funext y; rw [pown_fw_spec]; simp
+  rw [hf] at hd
+  have h1 : d = 1 := hd.unique (hasDerivAt_id 0)
+  have := hg 1
+  simp [pownBwElem, h1] at this
+
+/-! ### broadcasting binary kernels: local adjoint laws -/
+namespace Binary
+variable {α : Type}
+
+/-- a stride of a batch-broadcast operand with `Bx` samples of `size` elements -/
+def StrideOK (skip size bs Bx : Nat) : Prop := (skip = 0 ∧ 1 ≤ Bx) ∨ (skip = size ∧ bs ≤ Bx)
+
+theorem addr_lt {skip size bs Bx : Nat} (h : StrideOK skip size bs Bx) :
+    ∀ t ∈ range2 bs size, t.1 * skip + t.2 < Bx * size := by
+  intro t ht
+  rw [mem_range2] at ht
+  exact bcast_idx_lt ht.1 ht.2 h
+
+variable [CommRing α]
+
+/-- add: `Σ⟪ga′ − ga, da⟫ + Σ⟪gb′ − gb, db⟫ = Σ_{b,i} gy[b,i] · (da[b,i] + db[b,i])`; an operand with
+stride 0 (batch 1) receives the sum over the batch. -/
+theorem add_adjoint (size bs skipA skipB Ba Bb : Nat) (gy ga gb da db : Buf α)
+    (ha : StrideOK skipA size bs Ba) (hb : StrideOK skipB size bs Bb) :
+    ∑ j ∈ range (Ba * size), ((addBw size bs skipA skipB gy ga gb).ga j - ga j) * da j
+      + ∑ j ∈ range (Bb * size), ((addBw size bs skipA skipB gy ga gb).gb j - gb j) * db j
+    = ((range2 bs size).map fun t => gy (t.1 * size + t.2) * (da (t.1 * skipA + t.2) + db (t.1 * skipB + t.2))).sum := by
+  unfold addBw
+  simp only []
+  rw [scatter_pair_adjoint _ _ _ _ _ ga gb da db _ _ (addr_lt ha) (addr_lt hb)]
+  exact congrArg List.sum (List.map_congr_left fun t _ => by ring)
+
+theorem subtract_adjoint (size bs skipA skipB Ba Bb : Nat) (gy ga gb da db : Buf α)
+    (ha : StrideOK skipA size bs Ba) (hb : StrideOK skipB size bs Bb) :
+    ∑ j ∈ range (Ba * size), ((subtractBw size bs skipA skipB gy ga gb).ga j - ga j) * da j
+      + ∑ j ∈ range (Bb * size), ((subtractBw size bs skipA skipB gy ga gb).gb j - gb j) * db j
+    = ((range2 bs size).map fun t => gy (t.1 * size + t.2) * (da (t.1 * skipA + t.2) - db (t.1 * skipB + t.2))).sum := by
+  unfold subtractBw
+  simp only [scatterSubAt_eq_add_neg]
+  rw [scatter_pair_adjoint _ _ _ _ _ ga gb da db _ _ (addr_lt ha) (addr_lt hb)]
+  exact congrArg List.sum (List.map_congr_left fun t _ => by ring)
+
+/-- multiply: jvp `da·b + a·db` -/
+theorem multiply_adjoint (size bs skipA skipB Ba Bb : Nat) (a b gy ga gb da db : Buf α)
+    (ha : StrideOK skipA size bs Ba) (hb : StrideOK skipB size bs Bb) :
+    ∑ j ∈ range (Ba * size), ((multiplyBw size bs skipA skipB a b gy ga gb).ga j - ga j) * da j
+      + ∑ j ∈ range (Bb * size), ((multiplyBw size bs skipA skipB a b gy ga gb).gb j - gb j) * db j
+    = ((range2 bs size).map fun t => gy (t.1 * size + t.2) *
+        (da (t.1 * skipA + t.2) * b (t.1 * skipB + t.2) + a (t.1 * skipA + t.2) * db (t.1 * skipB + t.2))).sum := by
+  unfold multiplyBw
+  simp only []
+  rw [scatter_pair_adjoint _ _ _ _ _ ga gb da db _ _ (addr_lt ha) (addr_lt hb)]
+  exact congrArg List.sum (List.map_congr_left fun t _ => by ring)
+
+end Binary
+
+namespace Binary
+variable {α : Type} [Field α]
+
+/-- divide: with `y = a / b` elementwise, jvp `da / b − (a/b) · db / b` (the two partial derivatives of
+`a / b`, Analysis/Scalar `hasDerivAt_div_left/right`) -/
+theorem divide_adjoint (size bs skipA skipB Ba Bb : Nat) (b y gy ga gb da db : Buf α)
+    (ha : StrideOK skipA size bs Ba) (hb : StrideOK skipB size bs Bb) :
+    ∑ j ∈ range (Ba * size), ((divideBw size bs skipA skipB b y gy ga gb).ga j - ga j) * da j
+      + ∑ j ∈ range (Bb * size), ((divideBw size bs skipA skipB b y gy ga gb).gb j - gb j) * db j
+    = ((range2 bs size).map fun t => gy (t.1 * size + t.2) *
+        (da (t.1 * skipA + t.2) * (1 / b (t.1 * skipB + t.2))
+          + db (t.1 * skipB + t.2) * (-(y (t.1 * size + t.2)) / b (t.1 * skipB + t.2)))).sum := by
+  unfold divideBw
+  simp only [scatterSubAt_eq_add_neg]
+  rw [scatter_pair_adjoint _ _ _ _ _ ga gb da db _ _ (addr_lt ha) (addr_lt hb)]
+  exact congrArg List.sum (List.map_congr_left fun t _ => by ring)
+
+/-- pow: with `y = a ^ b` elementwise, jvp `da · (b·y/a) + db · (log a · y)` (the two partial derivatives of
+`a ^ b` for a > 0, Analysis/Scalar `hasDerivAt_rpow_left/right`) -/
+theorem pow_adjoint (log : α → α) (size bs skipA skipB Ba Bb : Nat) (a b y gy ga gb da db : Buf α)
+    (ha : StrideOK skipA size bs Ba) (hb : StrideOK skipB size bs Bb) :
+    ∑ j ∈ range (Ba * size), ((powBw log size bs skipA skipB a b y gy ga gb).ga j - ga j) * da j
+      + ∑ j ∈ range (Bb * size), ((powBw log size bs skipA skipB a b y gy ga gb).gb j - gb j) * db j
+    = ((range2 bs size).map fun t => gy (t.1 * size + t.2) *
+        (da (t.1 * skipA + t.2) * (b (t.1 * skipB + t.2) * y (t.1 * size + t.2) / a (t.1 * skipA + t.2))
+          + db (t.1 * skipB + t.2) * (log (a (t.1 * skipA + t.2)) * y (t.1 * size + t.2)))).sum := by
+  unfold powBw
+  simp only []
+  rw [scatter_pair_adjoint _ _ _ _ _ ga gb da db _ _ (addr_lt ha) (addr_lt hb)]
+  exact congrArg List.sum (List.map_congr_left fun t _ => by ring)
+
+end Binary
+example : Binary.StrideOK 0 6 3 1 := Or.inl ⟨rfl, le_refl 1⟩
+example : Binary.StrideOK 6 6 3 3 := Or.inr ⟨rfl, le_refl 3⟩
+
+/-! ### matmul and conv2d: bilinear kernels -/
+namespace Matmul
+variable {α : Type} [CommRing α]
+
+/-- every address of the loop nest is inside its tensor (proved from the dimensions in Props/C11/Arith.lean) -/
+def InBounds (D : MatDims) (na nb : Nat) : Prop :=
+  ∀ t ∈ D.its, D.aa t < na ∧ D.ba t < nb ∧ D.ya t < D.bs * (D.d3 * D.d1)
+
+/-- `Σ⟪ga′ − ga, da⟫ + Σ⟪gb′ − gb, db⟫ = Σ_n gy[n] · (matmul(da, b) + matmul(a, db))[n]`: the backward kernel is
+the adjoint of the linearisation of the forward kernel (which is bilinear), for every batch pattern. -/
+theorem adjoint (D : MatDims) (na nb : Nat) (a b gy ga gb da db : Buf α) (junk : α) (h : InBounds D na nb) :
+    ∑ j ∈ range na, ((matmulBw D a b gy ga gb).ga j - ga j) * da j
+      + ∑ j ∈ range nb, ((matmulBw D a b gy ga gb).gb j - gb j) * db j
+    = ∑ n ∈ range (D.bs * (D.d3 * D.d1)), gy n * (matmulFw 0 D da b junk n + matmulFw 0 D a db junk n) := by
+  unfold matmulBw
+  simp only []
+  rw [scatter_pair_adjoint _ _ _ _ _ ga gb da db _ _ (fun t ht => (h t ht).1) (fun t ht => (h t ht).2.1)]
+  have hy : ∀ t ∈ D.its, D.ya t < D.bs * (D.d3 * D.d1) := fun t ht => (h t ht).2.2
+  have e : ∀ n ∈ range (D.bs * (D.d3 * D.d1)),
+      gy n * (matmulFw 0 D da b junk n + matmulFw 0 D a db junk n)
+        = gy n * scatterAddAt D.its D.ya (fun t => da (D.aa t) * b (D.ba t)) 0 n
+          + gy n * scatterAddAt D.its D.ya (fun t => a (D.aa t) * db (D.ba t)) 0 n := by
+    intro n hn
+    simp only [matmulFw, if_pos (Finset.mem_range.mp hn)]
+    ring
+  rw [Finset.sum_congr rfl e, Finset.sum_add_distrib, gather_adjoint _ _ _ _ _ hy, gather_adjoint _ _ _ _ _ hy]
+  rw [← List.sum_map_add]
+  exact congrArg List.sum (List.map_congr_left fun t _ => by ring)
+
+end Matmul
+
+namespace Conv2d
+variable {α : Type} [CommRing α]
+
+def InBounds (D : ConvDims) (nx nw : Nat) : Prop :=
+  ∀ t ∈ D.its, D.xa t < nx ∧ D.wa t < nw ∧ D.ya t < D.bs * D.yShift
+
+/-- conv2d_bw is the adjoint of the linearisation `conv(dx, w) + conv(x, dw)` of conv2d_fw, with padding,
+stride, dilation and every batch pattern (a batch-1 `x` or `w` receives the sum over the batch). -/
+theorem adjoint (D : ConvDims) (nx nw : Nat) (x w gy gx gw dx dw : Buf α) (junk : α) (h : InBounds D nx nw) :
+    ∑ j ∈ range nx, ((conv2dBw D x w gy gx gw).ga j - gx j) * dx j
+      + ∑ j ∈ range nw, ((conv2dBw D x w gy gx gw).gb j - gw j) * dw j
+    = ∑ n ∈ range (D.bs * D.yShift), gy n * (conv2dFw 0 D dx w junk n + conv2dFw 0 D x dw junk n) := by
+  unfold conv2dBw
+  simp only []
+  rw [scatter_pair_adjoint _ _ _ _ _ gx gw dx dw _ _ (fun t ht => (h t ht).1) (fun t ht => (h t ht).2.1)]
+  have hy : ∀ t ∈ D.its, D.ya t < D.bs * D.yShift := fun t ht => (h t ht).2.2
+  have e : ∀ n ∈ range (D.bs * D.yShift),
+      gy n * (conv2dFw 0 D dx w junk n + conv2dFw 0 D x dw junk n)
+        = gy n * scatterAddAt D.its D.ya (fun t => dx (D.xa t) * w (D.wa t)) 0 n
+          + gy n * scatterAddAt D.its D.ya (fun t => x (D.xa t) * dw (D.wa t)) 0 n := by
+    intro n hn
+    simp only [conv2dFw, if_pos (Finset.mem_range.mp hn)]
+    ring
+  rw [Finset.sum_congr rfl e, Finset.sum_add_distrib, gather_adjoint _ _ _ _ _ hy, gather_adjoint _ _ _ _ _ hy]
+  rw [← List.sum_map_add]
+  exact congrArg List.sum (List.map_congr_left fun t _ => by ring)
+
+end Conv2d
+
+/-! ### max_pool2d: selection -/
+namespace MaxPool
+variable {α : Type}
+
+/-- Under the unique-maximum hypothesis the scan of max_pool2d_bw stops at the maximising cell:
+if `a` is a cell of the window whose value equals the output `y[t]` and no other cell of the window does,
+`firstMatch` returns it. -/
+theorem firstMatch_of_unique [DecidableEq α] (D : PoolDims) (x y : Buf α) (t : Nat × Nat × Nat) (a : Nat)
+    (ha : a ∈ D.window t.2.1 t.2.2) (hv : x (D.xbase t + a) = y (D.ya t))
+    (huniq : ∀ c ∈ D.window t.2.1 t.2.2, x (D.xbase t + c) = y (D.ya t) → c = a) :
+    firstMatch D x y t = some (D.xbase t + a) := by
+  unfold firstMatch
+  cases hf : (D.window t.2.1 t.2.2).find? (fun c => x (D.xbase t + c) == y (D.ya t)) with
+  | none =>
+    rw [List.find?_eq_none] at hf
+    exact absurd (by simpa using hv) (hf a ha)
+  | some c =>
+    have hc := List.find?_some hf
+    have hm := List.mem_of_find?_eq_some hf
+    have : c = a := huniq c hm (by simpa using hc)
+    simp [this]
+
+variable [CommRing α] [DecidableEq α]
+
+/-- T2 for max_pool2d (smooth domain = the maximum of every window is attained once, at `am t`):
+`Σ⟪gx′ − gx, dx⟫ = Σ_{t} gy[t] · dx[am t]`, the right-hand side being `⟪gy, jvp dx⟫` for the selection
+`jvp dx [t] = dx[am t]`. -/
+theorem adjoint (D : PoolDims) (x y gy gx dx : Buf α) (nx : Nat) (am : Nat × Nat × Nat → Nat)
+    (hfm : ∀ t ∈ D.outer, firstMatch D x y t = some (am t)) (hb : ∀ t ∈ D.outer, am t < nx) :
+    ∑ j ∈ range nx, (maxPoolBw D x y gy gx j - gx j) * dx j
+      = (D.outer.map fun t => gy (D.ya t) * dx (am t)).sum := by
+  unfold maxPoolBw
+  try simp only []
+  have hl : (D.outer.filterMap fun t => (firstMatch D x y t).map fun a => (t, a)) = D.outer.map fun t => (t, am t) := by
+    generalize D.outer = l at hfm hb ⊢
+    induction l with
+    | nil => rfl
+    | cons u rest ih =>
+      have h1 := hfm u (by simp)
+      rw [List.filterMap_cons, h1]
+      simp only [Option.map_some, List.map_cons]
+      rw [ih (fun t ht => hfm t (by simp [ht])) (fun t ht => hb t (by simp [ht]))]
+  rw [hl, scatter_adjoint]
+  · rw [List.map_map]; rfl
+  · intro p hp
+    obtain ⟨t, ht, rfl⟩ := List.mem_map.mp hp
+    exact hb t ht
+
+/-- The flat-index form (`Σ_{n < |y|} gy[n] · jvp[n]`): needs the enumeration lemma for the three-level
+nest `outer` (`outer.map ya = List.range |y|`, the analogue of `range2_addr`); stated, not proved. -/
+def adjoint_full : Prop :=
+  ∀ (D : PoolDims) (x y gy gx dx : Buf ℚ) (nx : Nat) (am : Nat × Nat × Nat → Nat) (jvp : Nat → ℚ),
+    (∀ t ∈ D.outer, firstMatch D x y t = some (am t)) → (∀ t ∈ D.outer, am t < nx) →
+    (∀ t ∈ D.outer, jvp (D.ya t) = dx (am t)) →
+    ∑ j ∈ range nx, (maxPoolBw D x y gy gx j - gx j) * dx j = ∑ n ∈ range (D.rep * (D.yh * D.yw)), gy n * jvp n
+
+end MaxPool
+
 end Primitiv.C01.Arith
